@@ -38,7 +38,7 @@ func main() {
 	case "simbuild":
 		dir := os.Args[2]
 		os.MkdirAll(dir, 0o755)
-		ins, err := simbuild.Build(dir)
+		ins, err := simbuild.Build(dir, len(os.Args) > 3)
 		if err != nil {
 			die(2, "%v", err)
 		}
